@@ -15,6 +15,7 @@ import (
 
 	hdf5 "github.com/scigolib/hdf5"
 	"github.com/scigolib/hdf5/internal/core"
+	"github.com/scigolib/hdf5/verif/indep"
 	"github.com/scigolib/hdf5/verif/vt"
 )
 
@@ -513,6 +514,39 @@ var builders = []builder{
 		return fw.Close()
 	}},
 	{"gen/v2_chunked_deep", buildDeepTree},
+	{"gen/compact_only", buildCompactOnly},
+}
+
+// buildCompactOnly derives a small-to-read image with a COMPACT-layout dataset (the library cannot write that layout):
+// corpus file hdf5_official/h5copytst_new.h5 with the root group's symbol table node cut after the entry of /compact
+// (entries are sorted by name: /chunk, /compact remain), so that a case costs two datasets instead of twenty-three.
+func buildCompactOnly(path string) error {
+	b, err := os.ReadFile(filepath.Join(repoRoot(), "testdata", "hdf5_official", "h5copytst_new.h5"))
+	if err != nil {
+		return err
+	}
+	f, _ := indep.Decode(b, indep.Options{})
+	if f == nil {
+		return fmt.Errorf("compact_only: source not decodable")
+	}
+	addr, ok := f.Paths["/compact"]
+	if o := f.Objects[addr]; !ok || o == nil || o.Layout != "compact" {
+		return fmt.Errorf("compact_only: /compact not found as a compact dataset")
+	}
+	le := binary.LittleEndian
+	for i := 0; i+8 <= len(b); i++ {
+		if string(b[i:i+4]) != "SNOD" {
+			continue
+		}
+		n := int(le.Uint16(b[i+6:]))
+		for k := 0; k < n && i+8+(k+1)*40 <= len(b); k++ {
+			if le.Uint64(b[i+8+k*40+8:]) == addr {
+				le.PutUint16(b[i+6:], uint16(k+1))
+				return os.WriteFile(path, b, 0o644)
+			}
+		}
+	}
+	return fmt.Errorf("compact_only: symbol table entry of /compact not found")
 }
 
 // buildDeepTree writes a chunked dataset of 130 one-element chunks with the library and then re-shapes its chunk index,
